@@ -12,14 +12,29 @@ pub struct Phase {
     pub seeded: bool,
 }
 
-pub const CLAIMED: [&str; 13] = ["C01", "C02", "C04", "C05", "C06", "C07", "C09", "C10", "C11", "C12", "C13", "C17", "C18"];
+pub const CLAIMED: [&str; 16] = ["C01", "C02", "C03", "C04", "C05", "C06", "C07", "C09", "C10", "C11", "C12", "C13", "C14", "C15", "C17", "C18"];
 
 const RT_BATCH: u64 = 64;
 
 pub fn phases(prop: &str, tier: Tier) -> Vec<Phase> {
     let q = tier == Tier::Quick;
     match prop {
-        "C01" | "C02" | "C04" | "C06" | "C18" => vec![
+        "C15" => vec![Phase { name: if q { "c15-sweep4" } else { "c15-sweep5" }, units: crate::fam_histr::SWEEP_UNITS, seeded: false }],
+        "C03" => vec![
+            Phase { name: "c03-sweep", units: 14, seeded: false },
+            Phase { name: "foreign-seeded", units: if q { 400 } else { 40_000 }, seeded: true },
+        ],
+        "C14" => vec![
+            Phase { name: "c14-sweep", units: 13, seeded: false },
+            Phase { name: "foreign-seeded", units: if q { 400 } else { 40_000 }, seeded: true },
+        ],
+        "C06" => vec![
+            Phase { name: "rt-grid", units: 13, seeded: false },
+            Phase { name: "rt-seeded", units: if q { 300 } else { 30_000 }, seeded: true },
+            Phase { name: "c03-sweep", units: 14, seeded: false },
+            Phase { name: "foreign-seeded", units: if q { 150 } else { 15_000 }, seeded: true },
+        ],
+        "C01" | "C02" | "C04" | "C18" => vec![
             Phase { name: "rt-grid", units: 13, seeded: false },
             Phase { name: "rt-seeded", units: if q { 400 } else { 40_000 }, seeded: true },
         ],
@@ -70,6 +85,26 @@ pub fn run_unit(prop: &str, phase: &str, unit: u64, seed: u64, _tier: Tier, ctx:
             }
         }
         "rt-grid" => crate::fam_rt::grid_unit(unit, ctx, ctl),
+        "c15-sweep4" => crate::fam_histr::sweep_unit(unit, 4, ctx, ctl),
+        "c15-sweep5" => crate::fam_histr::sweep_unit(unit, 5, ctx, ctl),
+        "c03-sweep" => crate::fam_foreign::c03_sweep_unit(unit, ctx, ctl),
+        "c14-sweep" => crate::fam_foreign::c14_sweep_unit(unit, ctx, ctl),
+        "foreign-seeded" => {
+            for j in 0..RT_BATCH {
+                let run = unit * RT_BATCH + j;
+                let mut r = Rng::new(derive(seed, &format!("{}/foreign", prop), run));
+                let scn = crate::fam_foreign::generate(&mut r, prop);
+                if !ctl.before_case(|| Scenario::Foreign(scn.clone())) {
+                    continue;
+                }
+                ctx.stats.evaluations += 1;
+                crate::fam_foreign::execute(&scn, ctx);
+                if ctx.stats.samples.len() < 2 && j == 0 {
+                    ctx.stats.samples.push(serde_json::to_value(Scenario::Foreign(scn.clone())).unwrap());
+                }
+                ctl.after_case(ctx, || Scenario::Foreign(scn.clone()));
+            }
+        }
         "hw-seeded" => {
             for j in 0..RT_BATCH {
                 let run = unit * RT_BATCH + j;
@@ -114,6 +149,24 @@ pub fn meta(prop: &str) -> PropMeta {
             rule: "rt-grid: 13 types x parts 1..=6 x points/part 1..=8 x {Direct, BufWriter} x {with,without shx}, enumerated; rt-seeded: one seeded scenario per run (type, 0..40 shapes via public constructors, swarm-drawn float classes, finalize placement, ending, stacks, chunk/EINTR schedules). A run counts as non-trivial if it wrote at least one shape; distinct = distinct (type, per-shape part-length signature, writer stack, call pattern, reader stack) tuples by hash.",
             explanation: "Fault-free configuration of the simulator with must-be-masked transfer schedules: the real writer runs against simulated devices, the bytes are judged by an independent decoder and read back through every reading route of the real reader. Simulated time = device operations (logical_steps); the code under test has no clock.",
             exhaustive: false,
+        },
+        "C03" => PropMeta {
+            level: "exploration",
+            rule: "c03-sweep: 14 type codes x every combination of present/absent optional M over 3 records x {normal, zero parts, one-vertex parts, zero-vertex parts} x {with, without trailing bytes}, enumerated; foreign-seeded: one seeded file per run from the reference encoder (any of the 14 codes, 0..6 records, null records interleaved, 0..4 parts of 0..7 vertices, any float bit pattern incl. NaN in X/Y, arbitrary stored boxes and record numbers, optional M per record, bytes after the declared length, short-read/EINTR schedules, BufReader capacities). non-trivial = at least one record; distinct = distinct (type, per-record (type, M present, part lengths), order, filler lengths, trailing length) tuples.",
+            explanation: "Stub producer, real consumer: the file comes from the independent reference encoder, the real reader decodes it from a simulated source. Oracle: same record count and order, parts, patch kinds, coordinates bit-identical with absent M reported as NO_DATA and present M normalised, stored box returned as stored, no read beyond the declared length (Direct stack, from the device event log).",
+            exhaustive: false,
+        },
+        "C14" => PropMeta {
+            level: "exploration",
+            rule: "c14-sweep: 13 types x n=1..4 records of pairwise different sizes x all n! physical orders x {no filler, short filler, filler that looks like a record header}, enumerated; foreign-seeded: seeded files with shuffled physical order, random even-length filler (some looking like record headers) before/between/after records, short-read schedules, BufReader capacities. distinct as for C03.",
+            explanation: "The reference encoder places records at arbitrary offsets and writes the matching .shx; the real reader opened with_shx must yield one item per index entry in index order, each equal to the record at that entry, agree with read_nth_shape(i) and shape_count(). Reach counter: seeks issued during indexed iteration.",
+            exhaustive: true,
+        },
+        "C15" => PropMeta {
+            level: "exploration",
+            rule: "all call sequences up to length 4 (quick) / 5 (thorough) over the 13-letter alphabet {iterate 0/1/2/all items, read_nth_shape(0..=3), seek(0..=3), shape_count} on files of n=3 records, for 6 configurations: {ShapeReader with index, ShapeReader without index, complete Reader with rows carrying their index} x {records of pairwise different sizes, records of equal size}, enumerated completely (13 + 13^2 + 13^3 + 13^4 histories per configuration in the quick tier). distinct = distinct (configuration, history) pairs; evaluations = histories executed; logical_steps = reader calls.",
+            explanation: "Each history runs on the real reader over in-memory sources; every call's result is checked against a nondeterministic reference model whose state is the set of allowed positions of the next record: fresh / after random access = {0}, after seek(k) = {min(k,n)}, after an iteration that took items from p = {p+taken, 0}. Rows of the complete Reader must carry the index of their shape.",
+            exhaustive: true,
         },
         "C09" => PropMeta {
             level: "exploration",
